@@ -1,8 +1,9 @@
 """C13 - clock arithmetic: steps/times convert consistently; period spellings agree."""
+from contracts import timefmt as TF
 from contracts import timekeeper as K
 from pyvc import modelutil as mu
 
-UNITS = list(K.TK_UNITS) + list(K.TK_ISO)
+UNITS = list(K.TK_UNITS) + list(K.TK_ISO) + list(TF.TIMEFMT_UNITS)
 LEMMAS = []
 NATIVE = [
     dict(name="clock clauses on a time lattice + every period spelling incl. ISO-8601 strings and malformed ones", harness="timekeeper_bounded", kind="bounded",
@@ -12,10 +13,12 @@ LEVEL = "proof"
 LEVEL_TEXT = ("Deductive proof over all integer instants/durations (seconds) and both directions: __init__ attributes, clock invariant time == start +/- step*dt "
               "under update, Nsteps == floor(|stop-start|/dt), direction check raises SystemExit exactly on mismatch, step2time/time2step spec functions and their "
               "mutual inverse on step boundaries (all integers n incl. negative), step2nctime/nctime == offset from the reference time in s/m/h, "
-              "int/timedelta/[value, unit] period spellings. ISO-8601 string parsing, step2isotime's formatting and cf_units are bounded stand-ins (exhaustive to the stated bound).")
-LEVEL_NOTE = "datetime64[s]/timedelta64[s] are mathematical integers (no overflow, no NaT); string branch of normalize_period, duration2iso, cf_units, step2isotime formatting: bounded only"
-TECHNIQUE = "contract-based deductive verification (AST->z3 VCs over integer time); bounded exhaustive run-time contract for string parsing"
-EXPLANATION = "Clock arithmetic proved over mathematical integers for both directions; string-typed spellings bounded."
+              "int/timedelta/[value, unit] period spellings; the ISO-8601 branch of normalize_period over a model of the regular-expression groups (PTxHyMzS == 3600x + 60y + z, "
+              "nothing present or no match: ValueError); cf_units, step2isotime and duration2iso over structured strings (literal text + numeric fields). The real re/str/numpy "
+              "formatting behind those models is exercised by the bounded run-time contract.")
+LEVEL_NOTE = "datetime64[s]/timedelta64[s] are mathematical integers (no overflow, no NaT); re.match groups, str(datetime64) and integer formatting under assumed contracts (structured-string model), exercised by the bounded sweep"
+TECHNIQUE = "contract-based deductive verification (AST->z3 VCs over integer time, regex-group and structured-string models for the string-valued functions) + bounded exhaustive run-time contract"
+EXPLANATION = "Clock arithmetic, period spellings and the string-valued clock functions proved over mathematical integers / structured strings for both directions."
 ASSUMPTIONS = ["instants and durations are mathematical integers (seconds)", "np.datetime64(x,'s') / np.timedelta64(x,'s') are the identity on such values"]
 
 
